@@ -389,11 +389,20 @@ def h_constant_subscripts(eng):
     install(eng)
     g = make_generator(eng)
     f = eng.find_function(MOD, "Generator.get_indexed_symbol")
-    layout = ["1d", "2d", "nested"][eng.choice(3)]
+    layout = ["1d", "2d", "nested", "a.x[k]", "a[k].x"][eng.choice(5)]
     eng.input("layout", layout)
     n1 = dims_input(eng, "n1")
     descs, nodes = [], []
-    if layout == "1d":
+    if layout in ("a.x[k]", "a[k].x"):
+        # an array inside a scalar component / a scalar inside a component array: the scalar level
+        # carries the (None subscript, None dimension) pair that the real loop skips
+        nd, d = sym_subscript(eng, "i1", ["int", "slice"])
+        if layout == "a.x[k]":
+            mshape, indices = ((None,), (n1,)), VList([VList([None]), VList([nd])])
+        else:
+            mshape, indices = ((n1,), (None,)), VList([VList([nd]), VList([None])])
+        dims, tshape, descs = [n1], (n1, 1), [d]
+    elif layout == "1d":
         nd, d = sym_subscript(eng, "i1", ["int", "slice"])
         mshape, indices, dims, tshape = ((n1,),), VList([VList([nd])]), [n1], (n1, 1)
         descs = [d]
@@ -408,7 +417,7 @@ def h_constant_subscripts(eng):
             mshape, indices = ((n1, n2),), VList([VList([nd1, nd2])])
         else:
             mshape, indices = ((n1,), (n2,)), VList([VList([nd1]), VList([nd2])])
-    s = MXVal("a.x" if layout == "nested" else "x", tshape, mshape)
+    s = MXVal("a.x" if layout in ("nested", "a.x[k]", "a[k].x") else "x", tshape, mshape)
     tree = VObj(VClass("ComponentRef"), {"indices": indices, "name": "x"})
     try:
         res = eng.call(VBound(f, g), [tree, s], {})
@@ -507,12 +516,25 @@ def h_loop_index(eng):
     fl.fields["indexed_symbols"] = b_ordered_dict(eng)
     g = make_generator(eng, [fl])
     fl.fields["generator"] = g
-    shape = ["x[i]", "x[f(i)]", "x[i,k]", "x[k,i]"][eng.choice(4)]
+    shape = ["x[i]", "x[f(i)]", "x[i,k]", "x[k,i]", "a.x[i]", "a[i].x", "a.x[f(i)]"][eng.choice(7)]
     eng.input("shape", shape)
     n1 = dims_input(eng, "n1")
     loop_node = IndexNode(None, True, "i")
     expr_node = IndexNode(MXVal("f(i)", (1, 1)))
-    if shape in ("x[i]", "x[f(i)]"):
+    nested_indices = None
+    if shape in ("a.x[i]", "a[i].x", "a.x[f(i)]"):
+        # the looped-over array sits in a scalar component (or is an array of components with a
+        # scalar member): one (None, None) level that carries no subscript and no dimension
+        node = expr_node if shape == "a.x[f(i)]" else loop_node
+        if shape == "a[i].x":
+            s = MXVal("a.x", (n1, 1), ((n1,), (None,)))
+            nested_indices = VList([VList([node]), VList([None])])
+        else:
+            s = MXVal("a.x", (n1, 1), ((None,), (n1,)))
+            nested_indices = VList([VList([None]), VList([node])])
+        dims = [n1]
+        shape = "x[f(i)]" if shape == "a.x[f(i)]" else "x[i]"
+    elif shape in ("x[i]", "x[f(i)]"):
         nodes = [loop_node if shape == "x[i]" else expr_node]
         s = MXVal("x", (n1, 1), ((n1,),))
         dims = [n1]
@@ -522,7 +544,7 @@ def h_loop_index(eng):
         nodes = [loop_node, nk] if shape == "x[i,k]" else [nk, loop_node]
         s = MXVal("x", (n1, n2), ((n1, n2),))
         dims = [n1, n2]
-    tree = VObj(VClass("ComponentRef"), {"indices": VList([VList(nodes)]), "name": "x"})
+    tree = VObj(VClass("ComponentRef"), {"indices": nested_indices if nested_indices is not None else VList([VList(nodes)]), "name": "x"})
     try:
         res = eng.call(VBound(f, g), [tree, s], {})
     except PyRaise as e:
